@@ -399,3 +399,54 @@ def tera_all_idents(nodes):
             for c in n["conds"]:
                 out.extend(tera_expr_idents(c["cond"]))
     return out
+
+
+def literal_set_guard(S, cond):
+    """a closed membership test of one subject against string literals, however it is spelled:
+    matches!(x, "a" | "b"), CONST.contains(&x) / ["a", "b"].contains(&x) with CONST a constant array of literals, x == "a" || x == "b".
+    -> (subject text, frozenset of literals) or None"""
+    if not isinstance(cond, dict):
+        return None
+    k = cond.get("k")
+    if k == "paren":
+        return literal_set_guard(S, cond.get("expr"))
+    if k == "macro" and cond.get("name") == "matches" and cond.get("pat") is not None and not cond.get("guard"):
+        pat = cond["pat"]
+        cases = pat["cases"] if pat.get("k") == "or" else [pat]
+        lits = [c["lit"]["v"] for c in cases if c.get("k") == "lit" and c["lit"].get("t") == "str"]
+        if len(lits) == len(cases) and lits:
+            return (expr_text(cond["expr"]), frozenset(lits))
+        return None
+    if k == "mcall" and cond.get("method") == "contains" and len(cond.get("args", [])) == 1:
+        recv = cond["recv"]
+        while recv.get("k") in ("ref", "paren"):
+            recv = recv["expr"]
+        arr = None
+        if recv.get("k") == "array":
+            arr = recv
+        elif recv.get("k") == "path":
+            c = S.consts.get(recv["segs"][-1]) or S.consts.get("::".join(recv["segs"][-2:]))
+            e = c.get("expr") if c else None
+            while isinstance(e, dict) and e.get("k") in ("ref", "paren"):
+                e = e["expr"]
+            if isinstance(e, dict) and e.get("k") == "array":
+                arr = e
+        if arr is not None:
+            lits = [lit_str(x) for x in arr["elems"]]
+            if lits and all(x is not None for x in lits):
+                a = cond["args"][0]
+                while a.get("k") in ("ref", "paren"):
+                    a = a["expr"]
+                return (expr_text(a), frozenset(lits))
+        return None
+    if k == "binary" and cond.get("op") == "||":
+        l = literal_set_guard(S, cond["l"])
+        r = literal_set_guard(S, cond["r"])
+        if l and r and l[0] == r[0]:
+            return (l[0], l[1] | r[1])
+        return None
+    if k == "binary" and cond.get("op") == "==":
+        for a, b in ((cond["l"], cond["r"]), (cond["r"], cond["l"])):
+            if lit_str(b) is not None:
+                return (expr_text(a).lstrip("*&"), frozenset([lit_str(b)]))
+    return None
